@@ -9,10 +9,57 @@
 //!   at the cursor and the cursor advances by one (Esc with esc_clear_all_buffer may clear it);
 //! * after every key that ends in `Entering` with Absorb or Commit the buffer is no longer than
 //!   auto_commit_threshold; an auto-commit removes a prefix only (cursor shifted, saturating).
+//! * candidate lists (cursor save / restore around a selection), a shadow FRAME per open list, kept across steps:
+//!   the frame remembers buffer and cursor of the moment the list was opened (by a key or by `start_selecting`);
+//!   however the list is closed WITHOUT choosing (Esc, Up, Backspace, CapsLock, `cancel_selecting`, a call that empties
+//!   the list) buffer and cursor are those of the frame; a symbol chosen from the symbol table opened with the
+//!   backquote key is inserted exactly at the frame's cursor and the cursor advances by one; a phrase chosen keeps
+//!   every symbol and puts the cursor back (one further with auto_shift_cursor); a symbol chosen for replacement
+//!   changes only the symbol under the list's cursor and puts the cursor back.  A cursor saved by an EARLIER list and
+//!   never restored shows here as a cursor that jumps when a later list is closed.
 use crate::step::*;
 use chewing::editor::keyboard::KeyCode;
-use std::cell::Cell;
+use std::cell::{Cell, RefCell};
 use vharness::Out;
+
+/// the shadow of an open candidate list
+struct Frame {
+    sid: u64,
+    /// cursor and buffer at the moment the list was opened
+    c_open: usize,
+    buf: Vec<String>,
+    /// opened with the backquote key: the symbol table, whose leaves are INSERTED at the cursor
+    insert_list: bool,
+    /// j / k / a jump call moved the list to another symbol while it was open
+    moved: bool,
+    /// the language mode changed while the list stayed open, for the statistics
+    mode_toggled: bool,
+}
+
+#[derive(Default)]
+struct FrameStats {
+    opened: u64,
+    opened_at_end: u64,
+    left: u64,
+    left_by_capslock: u64,
+    left_by_esc: u64,
+    left_by_api_or_revalidate: u64,
+    chosen_insert: u64,
+    chosen_phrase: u64,
+    chosen_replace: u64,
+    skipped_moved_insert_list: u64,
+    mode_change_while_open: u64,
+    after_mode_close_symbol_insert: u64,
+    after_mode_close_esc: u64,
+    after_mode_close_choice: u64,
+}
+
+thread_local! {
+    static FRAME: RefCell<Option<Frame>> = const { RefCell::new(None) };
+    static FSTATS: RefCell<FrameStats> = RefCell::new(FrameStats::default());
+    /// (session, a list of this session was closed by CapsLock / a language-mode change earlier)
+    static MODE_CLOSED: Cell<(u64, bool)> = const { Cell::new((u64::MAX, false)) };
+}
 
 thread_local! {
     /// (keys typed with the buffer >= 2 over the limit, easy-symbol expansions typed at limit / limit-1,
@@ -25,6 +72,202 @@ pub fn finish(out: &mut Out) {
     out.stat("c05_keys_with_buffer_2_or_more_over_limit", b);
     out.stat("c05_two_char_expansions_at_or_next_to_limit", a);
     out.stat("c05_auto_commits_removing_2_or_more", multi);
+    FSTATS.with(|f| {
+        let f = f.borrow();
+        out.stat("c05_list_frames_opened", f.opened);
+        out.stat("c05_list_frames_opened_at_end_of_buffer", f.opened_at_end);
+        out.stat("c05_list_frames_left_without_choosing", f.left);
+        out.stat("c05_list_frames_left_by_capslock", f.left_by_capslock);
+        out.stat("c05_list_frames_left_by_esc", f.left_by_esc);
+        out.stat("c05_list_frames_left_by_api_or_emptied", f.left_by_api_or_revalidate);
+        out.stat("c05_list_frames_symbol_inserted_from_table", f.chosen_insert);
+        out.stat("c05_list_frames_phrase_chosen", f.chosen_phrase);
+        out.stat("c05_list_frames_symbol_replaced", f.chosen_replace);
+        out.stat("c05_list_frames_skipped_moved_symbol_table", f.skipped_moved_insert_list);
+        out.stat("c05_list_frames_mode_or_option_change_while_open", f.mode_change_while_open);
+        out.stat("c05_after_list_closed_by_or_under_mode_change_symbol_table_insert", f.after_mode_close_symbol_insert);
+        out.stat("c05_after_list_closed_by_or_under_mode_change_esc_from_list", f.after_mode_close_esc);
+        out.stat("c05_after_list_closed_by_or_under_mode_change_choice", f.after_mode_close_choice);
+    });
+}
+
+/// `post` = `pre` with ONE token of class `cls` inserted at `at` and the cursor behind it - directly, or after an
+/// auto-commit cut a prefix off
+fn one_inserted(pre: &[String], at: usize, post: &[&str], post_cur: usize, thr: usize, ret: &str, cls: char) -> bool {
+    let n = pre.len();
+    if at > n {
+        return false;
+    }
+    if post.len() == n + 1 {
+        if !post[at].starts_with(cls) {
+            return false;
+        }
+        let mut v = pre.to_vec();
+        v.insert(at, post[at].to_string());
+        return after_tail(&v, at + 1, post, post_cur, thr, ret);
+    }
+    if ret == "C" && n + 1 > thr && post.len() <= n {
+        let r = n + 1 - post.len();
+        let mut good = post.len() <= thr && post_cur == (at + 1).saturating_sub(r);
+        for (i, t) in post.iter().enumerate() {
+            let j = i + r;
+            if j < at { good &= *t == pre[j] } else if j == at { good &= t.starts_with(cls) } else { good &= *t == pre[j - 1] }
+        }
+        return good;
+    }
+    false
+}
+
+/// the candidate-list frames (see the module comment); runs for EVERY operation, keys and calls
+fn frames(out: &mut Out, st: &Step, s0: &[&str], s1: &[&str], c0: usize, c1: usize) {
+    use KeyCode::*;
+    let (pre, post) = (st.pre, st.post);
+    let state0 = sections(pre)[0].as_bytes()[0];
+    let state1 = sections(post)[0].as_bytes()[0];
+    let opname = st.op.split(' ').next().unwrap_or("");
+    let own = |v: &[&str]| -> Vec<String> { v.iter().map(|s| s.to_string()).collect() };
+    let mut fr = FRAME.with(|f| f.borrow_mut().take()).filter(|f| f.sid == st.sid);
+    if MODE_CLOSED.with(|m| m.get().0) != st.sid {
+        MODE_CLOSED.with(|m| m.set((st.sid, false)));
+    }
+    let mode_closed_before = MODE_CLOSED.with(|m| m.get().1);
+    if state0 != b'S' {
+        fr = None;
+        if state1 == b'S' {
+            let info = sel_info(post).unwrap();
+            let same = s0.len() == s1.len() && s0.iter().zip(s1).all(|(a, b)| a == b);
+            // simple engine: the completed syllable is inserted and the list opened on it in one step
+            let grew = state0 == b'Y' && s1.len() == s0.len() + 1 && c1 == c0 + 1;
+            if same || grew {
+                let c_open = if same { c0 } else { c1 };
+                FSTATS.with(|f| {
+                    let mut f = f.borrow_mut();
+                    f.opened += 1;
+                    if c_open == s1.len() {
+                        f.opened_at_end += 1;
+                    }
+                });
+                fr = Some(Frame { sid: st.sid, c_open, buf: own(s1), insert_list: info.kind == 'M' && info.action == 'I', moved: false, mode_toggled: false });
+            }
+        }
+        FRAME.with(|f| *f.borrow_mut() = fr);
+        return;
+    }
+    let Some(mut f) = fr else { return };
+    let lang_changed = opt(pre, 8) != opt(post, 8);
+    // j / k / a jump call move the list to another symbol (and close it when that symbol has nothing to list)
+    if matches!(st.key, Some(ev) if ev.code == J || ev.code == K) || opname == "jump" {
+        f.moved = true;
+    }
+    if state1 == b'S' {
+        // still open: remember whether the mode / an option changed under it
+        if lang_changed || opname == "setopts" {
+            // (a list that stayed open under a language-mode change counts as "closed under a mode change" later)
+            f.mode_toggled |= lang_changed;
+            FSTATS.with(|x| x.borrow_mut().mode_change_while_open += 1);
+        }
+        let same = s0.len() == s1.len() && s0.iter().zip(s1).all(|(a, b)| a == b);
+        if !same {
+            out.oracle_fail("C05", "new", &format!("the buffer changed while the candidate list stayed open: [{}] -> [{}]: {}", s0.join(" "), s1.join(" "), st.hist()));
+        } else {
+            FRAME.with(|x| *x.borrow_mut() = Some(f));
+        }
+        return;
+    }
+    // the list is closed by this operation
+    if opname == "clear" {
+        return;
+    }
+    let thr = opt(pre, 6);
+    // API calls answer ok / err: what matters for the tail is whether the call ended in the overflow path
+    let ret = if st.key.is_some() { st.ret } else if misc(post)[0] == "C" { "C" } else { "ok" };
+    let choosing = match st.key {
+        Some(ev) => (ev.code as u8) >= (N1 as u8) && (ev.code as u8) <= (N0 as u8) && !ev.modifiers.ctrl && !ev.modifiers.shift,
+        None => opname == "select",
+    };
+    if f.insert_list && f.moved {
+        // the symbol table opened with ` saves no cursor; after j / k it is a list on another symbol
+        FSTATS.with(|x| x.borrow_mut().skipped_moved_insert_list += 1);
+        return;
+    }
+    let capslock = matches!(st.key, Some(ev) if ev.code == Unknown && ev.modifiers.capslock);
+    if capslock || lang_changed || f.mode_toggled {
+        MODE_CLOSED.with(|m| m.set((st.sid, true)));
+    }
+    let n = f.buf.len();
+    if !choosing {
+        FSTATS.with(|x| {
+            let mut x = x.borrow_mut();
+            x.left += 1;
+            if capslock {
+                x.left_by_capslock += 1;
+            }
+            if matches!(st.key, Some(ev) if ev.code == Esc) {
+                x.left_by_esc += 1;
+                if mode_closed_before {
+                    x.after_mode_close_esc += 1;
+                }
+            }
+            if st.key.is_none() {
+                x.left_by_api_or_revalidate += 1;
+            }
+        });
+        if !after_tail(&f.buf, f.c_open, s1, c1, thr, ret) {
+            out.oracle_fail("C05", "new", &format!(
+                "candidate list left without choosing by `{}`: expected the buffer [{}] and the cursor {} of the moment the list was opened (or a prefix cut by auto-commit), got [{}] cursor {}: {}",
+                st.op, f.buf.join(" "), f.c_open, s1.join(" "), c1, st.hist()));
+        }
+        return;
+    }
+    let info = sel_info(pre).unwrap();
+    if mode_closed_before {
+        FSTATS.with(|x| x.borrow_mut().after_mode_close_choice += 1);
+    }
+    if info.action == 'I' {
+        FSTATS.with(|x| {
+            let mut x = x.borrow_mut();
+            x.chosen_insert += 1;
+            if mode_closed_before {
+                x.after_mode_close_symbol_insert += 1;
+            }
+        });
+        if !one_inserted(&f.buf, f.c_open, s1, c1, thr, ret, 'c') {
+            out.oracle_fail("C05", "new", &format!(
+                "symbol chosen from the symbol table: expected one character inserted at the cursor {} of [{}] and the cursor behind it (or a prefix cut by auto-commit), got [{}] cursor {}: {}",
+                f.c_open, f.buf.join(" "), s1.join(" "), c1, st.hist()));
+        }
+    } else if info.kind == 'P' {
+        FSTATS.with(|x| x.borrow_mut().chosen_phrase += 1);
+        let c = (f.c_open + opt(pre, 3)).min(n);
+        if !after_tail(&f.buf, c, s1, c1, thr, ret) {
+            out.oracle_fail("C05", "new", &format!(
+                "phrase chosen from the list: expected the buffer [{}] unchanged and the cursor {} (saved {} when the list was opened, auto_shift_cursor {}), got [{}] cursor {}: {}",
+                f.buf.join(" "), c, f.c_open, opt(pre, 3), s1.join(" "), c1, st.hist()));
+        }
+    } else {
+        FSTATS.with(|x| x.borrow_mut().chosen_replace += 1);
+        // only the symbol under the list's cursor may change (to a character), the cursor goes back
+        let mut ok = false;
+        if c0 < n {
+            if s1.len() == n && s1[c0].starts_with('c') {
+                let mut v = f.buf.clone();
+                v[c0] = s1[c0].to_string();
+                ok = after_tail(&v, f.c_open, s1, c1, thr, ret);
+            } else if ret == "C" && n > thr && s1.len() < n {
+                let r = n - s1.len();
+                ok = s1.len() <= thr && c1 == f.c_open.saturating_sub(r);
+                for (i, t) in s1.iter().enumerate() {
+                    let j = i + r;
+                    if j == c0 { ok &= t.starts_with('c') } else { ok &= *t == f.buf[j] }
+                }
+            }
+        }
+        if !ok {
+            out.oracle_fail("C05", "new", &format!(
+                "symbol chosen for replacement: expected only position {} of [{}] to change and the cursor back at {}, got [{}] cursor {}: {}",
+                c0, f.buf.join(" "), f.c_open, s1.join(" "), c1, st.hist()));
+        }
+    }
 }
 
 fn opt(snap: &str, i: usize) -> usize {
@@ -54,6 +297,7 @@ pub fn check(out: &mut Out, st: &Step) {
     if c1 > s1.len() {
         out.oracle_fail("C05", "new", &format!("cursor {} beyond the buffer length {} after: {}", c1, s1.len(), st.hist()));
     }
+    frames(out, st, &s0, &s1, c0, c1);
     let ev = match st.key {
         Some(ev) => ev,
         None => return,
